@@ -64,6 +64,10 @@ def judge(run, scn, meta, res, plan, section):
         k = plan['sysfaults'][-1][0]
         hit = 'move:' + (o['muts'][k - 1] if k - 1 < len(o.get('muts', [])) else '?')
     tolerate = hit in ('remove', 'unlink', 'rmtree', 'close')
+    # whichever way the fault was injected: the file system refused the removal of the info file itself (stated exception)
+    for tr in o['trace']:
+        if tr[0] in ('remove', 'unlink', 'rmtree') and tr[2] and tr[2][0] == 'err' and tr[1] and str(tr[1][0]).endswith('.trashinfo'):
+            tolerate = True
     nf = len(run.failures)
     outs = putlib.conservation(run, scn, meta, res, section, allow_stray_if_refused=tolerate)
     # known finding: shutil.move degrades to copy + delete whenever rename is refused (EXDEV under the home fallback, or any
